@@ -55,7 +55,7 @@ def cfg(compiler, opt, std='c++17', abacus=False, **kw):
 # the clang configuration mirrors a release build of a project that uses the compiler defaults: GNU dialect (no __STRICT_ANSI__),
 # -DNDEBUG, and -funsigned-char (the default on ARM/PowerPC Linux): code hidden behind those switches is a configuration dimension too
 FORCE_CE = ['-include', os.path.join(HARNESS, 'force_ce.h')]   # harness/force_ce.h: is_constant_evaluated() answers true at run time
-QUICK_CFGS = [cfg('g++', '-O0'), cfg('g++', '-O2'), cfg('clang++', '-O2', 'gnu++17', extra=['-DNDEBUG', '-funsigned-char'], tag='clang-O2-gnu++17-ndebug-uchar'),
+QUICK_CFGS = [cfg('g++', '-O0', extra=['-DVERIF_UMBRELLA=1'], tag='gcc-O0-c++17-umbrella'), cfg('g++', '-O2'), cfg('clang++', '-O2', 'gnu++17', extra=['-DNDEBUG', '-funsigned-char'], tag='clang-O2-gnu++17-ndebug-uchar'),
               cfg('g++', '-O2', 'c++20', extra=FORCE_CE, tag='gcc-O2-c++20-ce')]
 ABACUS_QUICK = [cfg('g++', '-O2', abacus=True)]
 
@@ -82,6 +82,9 @@ def abacus_thorough():
 
 
 NEEDS_ABACUS = {'C08', 'C12', 'C13', 'C14'}
+# properties whose entry points take no floating-point argument and use no floating-point intermediate: for them a build with
+# -ffast-math (which defines __FAST_MATH__/__FINITE_MATH_ONLY__) and -Os (__OPTIMIZE_SIZE__) must behave identically
+INTEGER_ONLY = {'C01', 'C02', 'C03', 'C06', 'C09', 'C10', 'C11', 'C15', 'C17', 'C18', 'C19'}
 
 
 def configs_for(prop, tier):
@@ -89,12 +92,16 @@ def configs_for(prop, tier):
         c = list(QUICK_CFGS)
         if prop in NEEDS_ABACUS:
             c += ABACUS_QUICK
+        if prop in INTEGER_ONLY:
+            c += [cfg('g++', '-Os', 'c++20', extra=['-ffast-math'], tag='gcc-Os-c++20-fastmath')]
         if prop == 'C08':
             c += [cfg('clang++', '-O0', 'c++20'), cfg('g++', '-O3', 'c++2b')]
     else:
         c = thorough_cfgs()
         if prop in NEEDS_ABACUS:
             c += abacus_thorough()
+        if prop in INTEGER_ONLY:
+            c += [cfg('g++', '-Os', 'c++20', extra=['-ffast-math'], tag='gcc-Os-c++20-fastmath'), cfg('clang++', '-Oz', 'c++17', extra=['-ffast-math'], tag='clang-Oz-c++17-fastmath')]
     return c
 
 
@@ -270,7 +277,7 @@ ASSUMPTIONS = [
 def finish(prop, tier, seed, t0, arms, violations, extra_cov, status_notes, inconclusive_reasons):
     """violations: list of dict(key, count, witnesses[, arm]); prints verdict lines, writes evidence + replays, returns exit code"""
     known = load_known()
-    repdir = os.path.join(VERIF, 'replays', prop)
+    repdir = os.path.join(os.environ.get('VERIF_REPLAY_DIR') or os.path.join(VERIF, 'replays'), prop)
     shutil.rmtree(repdir, ignore_errors=True)
     os.makedirs(repdir, exist_ok=True)
     n_new = 0
@@ -317,8 +324,9 @@ def finish(prop, tier, seed, t0, arms, violations, extra_cov, status_notes, inco
         cov['notes'] = status_notes
     ev = {'property_id': prop, 'tier': tier, 'seed': seed, 'level': 'exploration', 'coverage': cov, 'assumptions': ASSUMPTIONS,
           'wall_s': round(time.time() - t0, 2), 'violations': n_new, 'known_findings_observed': n_known}
-    os.makedirs(os.path.join(VERIF, 'evidence'), exist_ok=True)
-    with open(os.path.join(VERIF, 'evidence', f'{prop}.json'), 'w') as f:
+    evdir = os.environ.get('VERIF_EVIDENCE_DIR') or os.path.join(VERIF, 'evidence')   # tools that test mutated trees redirect it
+    os.makedirs(evdir, exist_ok=True)
+    with open(os.path.join(evdir, f'{prop}.json'), 'w') as f:
         json.dump(ev, f, indent=1)
         f.write('\n')
     for l in lines:
